@@ -124,7 +124,7 @@ def run_rep(np, ode, rng, kinds, rf, order, ic, prm, frc, q0, Dm, Vm, Am, krf, f
     bd = np.array([p[1] for p in prm])
     kd_ = np.array([p[2] for p in prm])
     f = frc.copy()
-    if r["mform"] == "none":
+    if r["mform"] == "none" or r["coupling"] == "kcoupled":
         bd, kd_, f, md = bd / md, kd_ / md, f / md[:, None], np.ones(n)
     # equation order
     idx = list(range(n))
@@ -148,6 +148,14 @@ def run_rep(np, ode, rng, kinds, rf, order, ic, prm, frc, q0, Dm, Vm, Am, krf, f
     elpos = [pos for pos, e in enumerate(order_eq) if e != "rf" and not isrb[e]]
     rbpos = [pos for pos, e in enumerate(order_eq) if e != "rf" and isrb[e]]
     T = np.eye(ntot)
+    if r["coupling"] == "kcoupled":
+        # unit modal masses, T = Q sqrt(D) with Q orthogonal: the physical mass T'T = D is diagonal and NOT uniform, damping and
+        # stiffness are full
+        ne = len(elpos)
+        Q, _ = np.linalg.qr(rng.standard_normal((ne, ne)))
+        T[np.ix_(elpos, elpos)] = Q * np.sqrt(rng.uniform(0.5, 3.0, ne))[None, :]
+        M = T.T @ M @ T; B = T.T @ B @ T; K = T.T @ K @ T; F = T.T @ F
+        M = np.diag(np.diag(M))
     if r["coupling"] == "coupled":
         ne = len(elpos)
         if r["mform"] == "none":
@@ -253,7 +261,7 @@ def body(run: Run, replay):
     with mp_.get_context("fork").Pool(16) as pool:
         for pi, problem, prm, results in pool.imap_unordered(one_problem, jobs, chunksize=4):
             for r, msg in results:
-                run.case((json.dumps(problem), json.dumps(r, sort_keys=True)), part=r["solver"] + ("/coupled" if r["coupling"] == "coupled" else "/diag"))
+                run.case((json.dumps(problem), json.dumps(r, sort_keys=True)), part=r["solver"] + "/" + r["coupling"])
                 run.trace_validated()
                 if msg:
                     tags = {"solver": r["solver"], "pre_eig": r["pre_eig"], "ic": problem[3]}
